@@ -147,6 +147,16 @@ Proof.
     destruct v as [| |n|n| |]; try discriminate; try reflexivity; destruct n; try discriminate; reflexivity.
 Qed.
 
+Lemma forallb_any l : forallb (conforms ShAny) l = true.
+Proof. apply forallb_forall. intros x _. reflexivity. Qed.
+
+Lemma refine_ty_sound t s v : conforms s v = true -> has_ty t v = true -> conforms (refine_ty t s) v = true.
+Proof.
+  intros Hc Hh. destruct s as [| | | | | | |e0|fs rest|s1|ea]; cbn [refine_ty]; try exact Hc.
+  - destruct t; destruct v; try discriminate; try reflexivity. cbn [conforms]. apply forallb_any.
+  - destruct (sure_ty t s1) eqn:Es1; [|exact Hc]. rewrite conforms_ShOpt in Hc. destruct v; try exact Hc. destruct t; discriminate.
+Qed.
+
 Lemma zero_conf t : conforms (zero_sh t) (zero t) = true.
 Proof. destruct t; reflexivity. Qed.
 
@@ -224,14 +234,14 @@ Proof.
   induction ks as [|k ks IH]; intros s v H.
   - cbn [apath path_get forallb]. rewrite H. reflexivity.
   - cbn [apath].
-    destruct s as [| | | | | | |e|fs rest|s1]; cbn [strip];
+    destruct s as [| | | | | | |e|fs rest|s1|ea]; cbn [strip];
       try (rewrite (conforms_not_obj _ _ k ks H I); reflexivity).
     + apply forallb_forall. intros x _. reflexivity.
     + apply (apath_obj_sound ks IH); exact H.
     + rewrite conforms_ShOpt in H. destruct (is_null v) eqn:En.
-      { destruct v; try discriminate. cbn [path_get]. destruct s1 as [| | | | | | |e|fs rest|s2]; reflexivity. }
+      { destruct v; try discriminate. cbn [path_get]. destruct s1 as [| | | | | | |e|fs rest|s2|eb]; reflexivity. }
       cbn [orb] in H.
-      destruct s1 as [| | | | | | |e|fs rest|s2];
+      destruct s1 as [| | | | | | |e|fs rest|s2|eb];
         try (rewrite (conforms_not_obj _ _ k ks H I); reflexivity);
         try (apply forallb_forall; intros x _; reflexivity).
       apply (apath_obj_sound ks IH); exact H.
@@ -241,11 +251,11 @@ Lemma afield_sound s k s' v :
   afield s k = Some s' -> conforms s v = true ->
   exists v', match v with VObj o => Ok (fieldv k o) | VNull => Ok VNull | _ => Panic 0 end = Ok v' /\ conforms s' v' = true.
 Proof.
-  destruct s as [| | | | | | |e|fs rest|s1]; cbn [afield]; try discriminate.
+  destruct s as [| | | | | | |e|fs rest|s1|ea]; cbn [afield]; try discriminate.
   - intros H Hc. injection H as <-. destruct v; try discriminate. exists VNull. auto.
   - intros H Hc. injection H as <-. pose proof Hc as Hc'. apply conforms_obj in Hc' as [o [-> _]].
     exists (fieldv k o). split; [reflexivity|exact (afield_obj_sound _ _ _ _ Hc)].
-  - destruct s1 as [| | | | | | |e|fs rest|s2]; try discriminate.
+  - destruct s1 as [| | | | | | |e|fs rest|s2|eb]; try discriminate.
     intros H Hc. injection H as <-. rewrite conforms_ShOpt in Hc. destruct (is_null v) eqn:En.
     + destruct v; try discriminate. exists VNull. split; [reflexivity|apply conforms_opt_null; reflexivity].
     + cbn [orb] in Hc. pose proof Hc as Hc'. apply conforms_obj in Hc' as [o [-> _]].
@@ -255,7 +265,7 @@ Qed.
 Lemma aeval_sound e : forall G r s, aeval e G = Some s -> env_conf G r ->
   exists v, eval e r = Ok v /\ conforms s v = true.
 Proof.
-  induction e as [x|e IH k|line e IH t|e IH t|e IH ks|e IH k]; intros G r s Ha He; cbn [aeval] in Ha; cbn [eval].
+  induction e as [x|e IH k|line e IH t|e IH t|e IH ks|e IH k|str|line e IH n]; intros G r s Ha He; cbn [aeval] in Ha; cbn [eval].
   - destruct (He x s Ha) as [v [Hl Hc]]. exists v. rewrite Hl. auto.
   - destruct (aeval e G) as [s0|] eqn:Ea; [|discriminate]. destruct (IH G r s0 Ea He) as [v [-> Hc]]. cbn [bind].
     exact (afield_sound _ _ _ _ Ha Hc).
@@ -268,15 +278,22 @@ Proof.
     { injection Ha as <-. rewrite (sure_ty_has _ _ _ Es Hc). exact Hc. }
     destruct (never_ty t s0) eqn:En.
     { injection Ha as <-. rewrite (never_ty_has _ _ _ En Hc). apply zero_conf. }
-    destruct t; destruct s0 as [| | | | | | |e0|fs rest|s1]; try (injection Ha as <-; reflexivity);
-      destruct s1 as [| | | | | | |e1|fs1 rest1|s2]; injection Ha as <-; try reflexivity;
+    destruct s0 as [| | | | | | |e0|fs rest|s1|ea].
+    { destruct t; injection Ha as <-; destruct v; try reflexivity. cbn [has_ty conforms is_null orb]. apply forallb_any. }
+    all: destruct t; try (injection Ha as <-; reflexivity);
+      destruct s1 as [| | | | | | |e1|fs1 rest1|s2|eb]; injection Ha as <-; try reflexivity;
       rewrite conforms_ShOpt in Hc |- *; destruct v; try discriminate; cbn [has_ty zero is_null orb] in *; try reflexivity; exact Hc.
   - destruct (aeval e G) as [s0|] eqn:Ea; [|discriminate]. destruct (IH G r s0 Ea He) as [v [-> Hc]]. cbn [bind].
     injection Ha as <-. eexists. split; [reflexivity|]. cbn [conforms]. exact (apath_sound ks _ _ Hc).
   - destruct (aeval e G) as [s0|] eqn:Ea; [|discriminate]. destruct (IH G r s0 Ea He) as [v [-> Hc]]. cbn [bind].
-    destruct s0 as [| | | | | | |e0|fs rest|s1]; try discriminate; injection Ha as <-.
+    destruct s0 as [| | | | | | |e0|fs rest|s1|ea]; try discriminate; injection Ha as <-.
     + destruct v; try discriminate. exists VNull. auto.
     + pose proof Hc as Hc'. apply conforms_obj in Hc' as [o [-> _]]. eexists. split; [reflexivity|exact (conforms_del _ _ _ _ Hc)].
+  - injection Ha as <-. eexists. split; [reflexivity|]. cbn [conforms]. apply String.eqb_refl.
+  - destruct (aeval e G) as [s0|] eqn:Ea; [|discriminate]. destruct (IH G r s0 Ea He) as [v [-> Hc]]. cbn [bind].
+    destruct s0 as [| | | | | | |e0|fs rest|s1|ea]; try discriminate. destruct n as [|n]; [|discriminate]. injection Ha as <-.
+    cbn [conforms] in Hc. destruct v as [| | | |[|v0 l]|]; try discriminate. apply andb_true_iff in Hc as [H0 _].
+    exists v0. split; [reflexivity|exact H0].
 Qed.
 
 Lemma env_conf_cons G r x sh v : env_conf G r -> conforms sh v = true -> env_conf ((x, sh) :: G) ((x, v) :: r).
@@ -294,14 +311,14 @@ Qed.
 Lemma refine_nonnil_sound e G r v :
   env_conf G r -> eval e r = Ok v -> is_null v = false -> env_conf (refine_nonnil e G) r.
 Proof.
-  intros He Hv Hn. destruct e as [x|e k| | | |]; cbn [refine_nonnil]; try exact He.
+  intros He Hv Hn. destruct e as [x|e k| | | | | |]; cbn [refine_nonnil]; try exact He.
   - destruct (lookup x G) as [s|] eqn:El; [|exact He]. destruct (He x s El) as [v' [Hl Hc]].
     cbn [eval] in Hv. rewrite Hl in Hv. injection Hv as <-.
     exact (env_conf_refine _ _ _ _ _ He Hl (conforms_strip _ _ Hc Hn)).
-  - destruct e as [x| | | | |]; try exact He.
+  - destruct e as [x| | | | | | |]; try exact He.
     destruct (lookup x G) as [s|] eqn:El; [|exact He]. destruct (He x s El) as [vx [Hl Hc]].
     cbn [eval] in Hv. rewrite Hl in Hv. cbn [bind] in Hv.
-    destruct (strip s) as [| | | | | | |e0|fs rest|s1] eqn:Es; try exact He.
+    destruct (strip s) as [| | | | | | |e0|fs rest|s1|ea] eqn:Es; try exact He.
     destruct vx as [| | | | |o]; try discriminate.
     + injection Hv as <-. discriminate.
     + injection Hv as <-.
@@ -318,11 +335,13 @@ Lemma arr_elem_sound sh v :
   | None => True
   end.
 Proof.
-  intros H. destruct sh as [| | | | | | |e|fs rest|s1]; cbn [arr_elem]; try exact I.
+  intros H. destruct sh as [| | | | | | |e|fs rest|s1|ea]; cbn [arr_elem]; try exact I.
   - destruct v; try discriminate. reflexivity.
   - destruct v as [| | | |l|]; try discriminate. right. exists l. auto.
-  - destruct s1 as [| | | | | | |e|fs rest|s2]; try exact I. rewrite conforms_ShOpt in H.
-    destruct v as [| | | |l|]; try discriminate; [left; reflexivity|right; exists l; auto].
+  - destruct s1 as [| | | | | | |e|fs rest|s2|eb]; try exact I; rewrite conforms_ShOpt in H.
+    + destruct v as [| | | |l|]; try discriminate; [left; reflexivity|right; exists l; auto].
+    + destruct v as [| | | |[|v0 l]|]; try discriminate; [left; reflexivity|]. right. exists (v0 :: l). auto.
+  - destruct v as [| | | |[|v0 l]|]; try discriminate. right. exists (v0 :: l). auto.
 Qed.
 
 Lemma obj_parts_sound sh v :
@@ -333,10 +352,10 @@ Lemma obj_parts_sound sh v :
   | None => True
   end.
 Proof.
-  intros H. destruct sh as [| | | | | | |e|fs rest|s1]; cbn [obj_parts]; try exact I.
+  intros H. destruct sh as [| | | | | | |e|fs rest|s1|ea]; cbn [obj_parts]; try exact I.
   - destruct v; try discriminate. reflexivity.
   - right. exact H.
-  - destruct s1 as [| | | | | | |e|fs rest|s2]; try exact I. rewrite conforms_ShOpt in H.
+  - destruct s1 as [| | | | | | |e|fs rest|s2|eb]; try exact I. rewrite conforms_ShOpt in H.
     destruct (is_null v) eqn:En; [left; destruct v; try discriminate; reflexivity|right; exact H].
 Qed.
 
@@ -362,19 +381,17 @@ Proof.
     destruct (never_ty t sh) eqn:En.
     { rewrite (never_ty_has _ _ _ En Hv). exact (IHb _ _ Hc (env_conf_cons _ _ _ _ _ He (zero_conf t))). }
     apply andb_true_iff in Hc as [H1 H2]. destruct (has_ty t v) eqn:Eh.
-    + apply (IHa _ _ H1). apply env_conf_cons; [exact He|].
-      destruct sh as [| | | | | | |e0|fs rest|s1]; try exact Hv. destruct (sure_ty t s1) eqn:Es1; [|exact Hv].
-      rewrite conforms_ShOpt in Hv. destruct v; try exact Hv. destruct t; discriminate.
+    + apply (IHa _ _ H1). apply env_conf_cons; [exact He|]. exact (refine_ty_sound _ _ _ Hv Eh).
     + exact (IHb _ _ H2 (env_conf_cons _ _ _ _ _ He (zero_conf t))).
   - destruct (aeval e G) as [sh|] eqn:Ea; [|discriminate]. destruct (aeval_sound _ _ _ _ Ea He) as [v [-> Hv]]. cbn [bind].
-    destruct sh as [| | | | |  |t| | |]; try discriminate.
+    destruct sh as [| | | | |  |t| | | |]; try discriminate.
     + destruct v as [| | |[s'|]| |]; try discriminate; apply andb_true_iff in Hc as [H1 H2].
       * destruct (String.eqb s' lit); [exact (IHa _ _ H1 He)|exact (IHb _ _ H2 He)].
       * exact (IHb _ _ H2 He).
     + destruct v as [| | |[s'|]| |]; try discriminate. cbn [conforms] in Hv. apply String.eqb_eq in Hv as ->.
       destruct (String.eqb t lit); [exact (IHa _ _ Hc He)|exact (IHb _ _ Hc He)].
   - destruct (aeval e G) as [sh|] eqn:Ea; [|discriminate]. destruct (aeval_sound _ _ _ _ Ea He) as [v [-> Hv]]. cbn [bind].
-    destruct sh as [| | | |t| | | | |]; try discriminate.
+    destruct sh as [| | | |t| | | | | |]; try discriminate.
     + destruct v as [| |[z'|]| | |]; try discriminate; apply andb_true_iff in Hc as [H1 H2].
       * destruct (Z.eqb z' z); [exact (IHa _ _ H1 He)|exact (IHb _ _ H2 He)].
       * exact (IHb _ _ H2 He).
